@@ -454,7 +454,9 @@ class PteraTransformer(NodeTransformer):
                 ast.Constant(value=None),
                 ann_arg,
                 value_arg,
-                True,
+                # A closure variable (assigned through nonlocal) belongs to
+                # the enclosing scope: it cannot be overriden
+                target.id not in self.free,
             ]
         elif isinstance(target, ast.Subscript) and isinstance(
             target.value, ast.Name
